@@ -112,6 +112,9 @@ def run_verus_unit(prop, unit, workdir, out, tier, known):
             m2 = re.search(r'no (?:method|function or associated item|associated function or constant|associated item) named `(\w+)` found for (?:struct|enum|mutable reference|reference) `&?(?:mut )?(\w+)', ce['message'])
             if m1 and (None, m1.group(1)) not in missing:
                 missing.append((None, m1.group(1)))
+            m3 = re.search(r'cannot find value `([A-Z][A-Z0-9_]*)` in this scope', ce['message'])
+            if m3 and ('const', m3.group(1)) not in missing:
+                missing.append(('const', m3.group(1)))
             if m2 and (m2.group(2), m2.group(1)) not in missing:
                 missing.append((m2.group(2), m2.group(1)))
         if missing:
